@@ -60,6 +60,7 @@ func runC07(c *core.Ctx) {
 	c07Tickers(c, root)
 	if svc := c.P.Pkg("services/alert"); svc != nil {
 		c07DrainLock(c, alertPkg, svc)
+		c07DrainLockTopics(c, alertPkg)
 	} else {
 		c.Undecided("C07.drainlock", "anchor:services/alert", token.NoPos, "package not loaded")
 	}
